@@ -104,6 +104,13 @@ func loadRepo(dir, tier, arch string) (*Ctx, error) {
 	})
 	c.indexBoundMethods()
 	c.indexDirectCallers()
+	// the three algorithm-table functions (algorithm number → hash/cipher object) are anchors
+	// with rules of their own (C01/C03/C12 algorithm-tables); spliced into the session
+	// constructor they would multiply its paths by the product of their case counts
+	{
+		a, i, k := c.algorithmCtors()
+		markOpaque(a, i, k)
+	}
 	return c, nil
 }
 
